@@ -136,6 +136,26 @@ def builtin(name: str) -> BusModel:
 WINDOWS = {"hi32": (0x8000, 0xFFFF, 0x8000), "full64": (0x0000, 0xFFFF, 0x10000), "half64": (0x8000, 0xFFFF, 0x10000)}
 
 
+def map_line(s: dict, style: int = 0) -> str:
+    """the `.map` directive of one spec.  style 0: all values in hexadecimal; other styles mix decimal, binary and
+    upper-case hexadecimal spellings of the same numbers (deterministic in `style`)"""
+    lo, hi, mask = WINDOWS[s["win"]]
+    n = [0]
+
+    def num(v: int, width: int) -> str:
+        n[0] += 1
+        k = 0 if style == 0 else (style * 7 + n[0] * 3) % 4
+        return f"0x{v:0{width}x}" if k == 0 else str(v) if k == 1 else f"0b{v:b}" if k == 2 else f"0x{v:0{width}X}"
+
+    line = (f".map identifier={s['id']} bank_range={num(s['first'], 2)}, {num(s['last'], 2)} "
+            f"addr_range={num(lo, 4)}, {num(hi, 4)} mask={num(mask, 1)}")
+    if s.get("ram"):
+        line += " writable=1"
+    if s.get("mirror"):
+        line += f" mirror_bank_range={num(s['mirror'][0], 2)}, {num(s['mirror'][1], 2)}"
+    return line
+
+
 def usermap(specs: list[dict]) -> BusModel:
     """specs: [{id, first, last, win: 'hi32'|'full64'|'half64', ram: bool, mirror: [first,last]|None}]"""
     ranges = []
